@@ -77,6 +77,19 @@ def iop(op, i):
         return '(ISetTrusted %s [] [])' % c
     raise ValueError(k)
 
+def step_term(op, i):
+    """an operation of the world (inl) or a read-only query of the service (inr)"""
+    if op['op'] == 'view':
+        v = op['view']
+        if v == 'interchainId': t = '(VInterchainId %s %s)' % (H(op['deployer']), H(op['salt']))
+        elif v == 'canonicalId': t = '(VCanonicalId %s)' % H(op['token'])
+        elif v == 'linkedId': t = '(VLinkedId %s %s)' % (H(op['deployer']), H(op['salt']))
+        elif v == 'chainNameHash': t = 'VChainNameHash'
+        elif v == 'deployedTm': t = '(VDeployedTm %s)' % H(op['token_id'])
+        else: raise ValueError(v)
+        return '(inr %s)' % t
+    return '(inl %s)' % iop(op, i)
+
 def expect(res, i):
     # only gateway and gas-service events are compared
     logs = '; '.join('{| lg_addr := %s; lg_topics := [%s]; lg_data := %s |}' % (H(l['a']), '; '.join(H(t) for t in l['t']), H(''.join(l['d'])))
@@ -90,7 +103,7 @@ def expect(res, i):
 def trace_term(j):
     i = j['init']
     tab = '[%s]' % '; '.join('(%s, %s, %s)' % (H(a), H(b), H(c)) for a, b, c in j['sigtab'])
-    st = '[%s]' % ';\n   '.join('(%s, %s)' % (iop(s['op'], i), expect(s['res'], i)) for s in j['steps'])
+    st = '[%s]' % ';\n   '.join('(%s, %s)' % (step_term(s['op'], i), expect(s['res'], i)) for s in j['steps'])
     return '(icheck_trace %s [%s] %s %d %d %s %d %s [%s] %s %s %s %s %s %s [%s]\n  %s)' % (
         tab, '; '.join(H(a) for a in i['tracked']), ledger(i['funds']), i['gwnow'], i['retention'], H(i['domain']), i['gwdelay'], H(i['gwop']),
         '; '.join(H(s) for s in i['signers']), H(i['its']), H(i['gw']), H(i['gas']), H(i['tm_impl']), H(i['operator']), H(i['chain']),
